@@ -262,6 +262,31 @@ def decrypt (P : Prims) (tPriv ctx ct : Bytes) : Outcome Bytes := (decryptProg t
 def deriveKey (P : Prims) (ctx salt tPriv : Bytes) (n : Nat) : Outcome Bytes := (deriveProg ctx salt tPriv n).run P
 def deriveKeyArg (P : Prims) (ctx salt : Bytes) (k : KeyArg) (n : Nat) : Outcome Bytes := (deriveArgProg ctx salt k n).run P
 def deriveEd25519 (P : Prims) (ctx salt : Bytes) (k : KeyArg) : Outcome Bytes := (deriveEdProg ctx salt k).run P
+/-! ### the size bound of a sealed message (`MaxEncryptedMessageSize`, 16 MiB)
+
+The code checks it at two places: `EncryptToEd25519` refuses `len(msgSrc) > MaxEncryptedMessageSize`
+as its second statement (before any primitive is evaluated), and `DecryptWithEd25519` refuses when
+the length the opened payload DECLARES (`s2.DecodedLen`) exceeds the bound, before `s2.Decode`
+allocates. `s2.Decode` only succeeds when the decoded length equals the declared one, so on the
+results the second check is "a decrypted message longer than the bound is an error" — which is how
+it is written here (that the check happens BEFORE the allocation is property C40, measured by engine
+`decoders`; the shape and the constant are regenerated, `Ties.Encrypt.size_guards`). -/
+
+/-- `MaxEncryptedMessageSize` -/
+def maxMessage : Nat := 16777216
+
+/-- `EncryptToEd25519` with its size guard. -/
+def encryptL (P : Prims) (tPub ctx msg : Bytes) : Outcome Bytes :=
+  if tPub.length ≠ 32 then .err
+  else if msg.length > maxMessage then .err
+  else encrypt P tPub ctx msg
+
+/-- `DecryptWithEd25519` with its size guard (on the result, see above). -/
+def decryptL (P : Prims) (tPriv ctx ct : Bytes) : Outcome Bytes :=
+  match decrypt P tPriv ctx ct with
+  | .ok m => if m.length > maxMessage then .err else .ok m
+  | o => o
+
 /-- the ECDH material `DeriveKey` feeds (after the xor) into the KDF -/
 def deriveMaterial (P : Prims) (ctx tPriv : Bytes) : Outcome Bytes := (materialProg ctx tPriv fun m => .done (.ok m)).run P
 
